@@ -64,9 +64,9 @@ func (t *txnReg) brief() string {
 	return fmt.Sprintf("{%s start=%d primary=%s muts=%v pess=%v}", t.Shape, t.Start, t.Primary, ks, t.Pess)
 }
 
-var rawShapes = []string{"base", "committed", "rolledback", "pending", "noprimary", "pess-pending", "pess-half", "pess-committed", "pess-rolledback", "pess-wrong-primary"}
+var rawShapes = []string{"base", "committed", "rolledback", "pending", "noprimary", "pess-pending", "pess-half", "pess-committed", "pess-rolledback", "pess-wrong-primary", "pess-multi-primary"}
 var asyncShapes = []string{"async-full", "async-partial", "async-primary-committed", "async-fallback"}
-var killShapes = []string{"kill-2pc", "kill-pess", "kill-async"}
+var killShapes = []string{"kill-2pc", "kill-pess", "kill-async", "kill-pess-multi"}
 
 type popBuilder struct {
 	u     *uni.Universe
@@ -180,6 +180,14 @@ func (b *popBuilder) add(shape string, n int, run bool) (bool, error) {
 		min = 2 // one of them is the stale extra lock
 	case "pess-wrong-primary":
 		min = 3
+	case "pess-multi-primary":
+		min = 3
+		if n < 6 && b.rng.Intn(2) == 0 {
+			n += 1 + b.rng.Intn(3)
+		}
+		if b.rng.Intn(2) == 0 {
+			run = true // neighbouring keys: the generations meet in one region / one scan batch
+		}
 	}
 	if n < min {
 		n = min
@@ -292,6 +300,73 @@ func (b *popBuilder) add(shape string, n int, run bool) (bool, error) {
 				}
 			}
 		}
+	case "pess-multi-primary":
+		// One pessimistic transaction whose locks name several primaries (pingcap/tidb#42937): a locking statement that
+		// failed half-way (write conflict on a later key) left pessimistic locks under the primary it had chosen - among
+		// them that key's own, self-primary lock - because their rollback was lost; the transaction elected a new primary
+		// with its next statement(s), then its client died (while locking, while prewriting, or after committing /
+		// rolling back the primary).  Generations are interleaved in key order at random, so a stale self-primary
+		// lock comes first / in the middle / last among the transaction's locks of a region.
+		fu := d.ts()
+		gens := 2
+		if len(keys) >= 4 && b.rng.Intn(3) == 0 {
+			gens = 3
+		}
+		groups := make([][]string, gens)
+		for i, pi := range b.rng.Perm(len(keys)) {
+			g := i
+			if i >= gens {
+				g = b.rng.Intn(gens)
+			}
+			groups[g] = append(groups[g], keys[pi])
+		}
+		live := dedupe(groups[gens-1])
+		primary = live[b.rng.Intn(len(live))]
+		t.Primary = primary
+		t.Pess = keys
+		t.Muts = map[string]mut{}
+		lock(keys...)
+		for gi := 0; gi < gens && err == nil; gi++ {
+			g := dedupe(groups[gi])
+			p := primary
+			if gi < gens-1 {
+				p = g[b.rng.Intn(len(g))] // the failed statement's primary is one of its keys: a self-primary lock
+			}
+			if err = d.pessLock(start, fu, p, g, ttl); err != nil {
+				break
+			}
+			if gi < gens-1 && len(g) > 1 && b.rng.Intn(4) == 0 {
+				// the rollback of the stale generation got as far as its primary: the others name a key without a lock
+				if err = d.pessRollback(start, fu, []string{p}); err == nil {
+					b.free[p] = true
+				}
+			}
+		}
+		if err == nil {
+			switch b.rng.Intn(5) {
+			case 0, 1: // died while locking
+			case 2: // died while prewriting
+				if some := b.subset(live); len(some) > 0 {
+					t.Muts = b.muts(start, some)
+					err = d.prewrite(start, primary, t.Muts, some, prewriteOpt{ttl: ttl, forUpdateTS: fu})
+				}
+			case 3: // died while committing
+				t.Muts = b.muts(start, live)
+				if err = d.prewrite(start, primary, t.Muts, live, prewriteOpt{ttl: ttl, forUpdateTS: fu}); err == nil {
+					done := append([]string{primary}, b.subset(without(live, primary))...)
+					err = d.commit(start, d.ts(), done)
+					for _, k := range done {
+						b.free[k] = true
+					}
+				}
+			default: // died while rolling back
+				t.Muts = b.muts(start, live)
+				if err = d.prewrite(start, primary, t.Muts, live, prewriteOpt{ttl: ttl, forUpdateTS: fu}); err == nil {
+					err = d.rollback(start, []string{primary})
+					b.free[primary] = true
+				}
+			}
+		}
 	case "pess-rolledback":
 		fu := d.ts()
 		t.Pess = keys
@@ -385,8 +460,17 @@ func (d *rawDriver) prewriteAsync(start uint64, primary string, muts map[string]
 // addKilled runs a transaction through the public KVTxn API on a client store of its own and kills that
 // store at a chosen request of the commit path.
 func (b *popBuilder) addKilled(shape string, n int, run bool) (bool, error) {
+	multi := shape == "kill-pess-multi"
+	if multi {
+		if n < 3 {
+			n = 3 + b.rng.Intn(3)
+		}
+		if b.rng.Intn(2) == 0 {
+			run = true
+		}
+	}
 	keys := b.take(n, run)
-	if len(keys) == 0 {
+	if len(keys) == 0 || (multi && len(keys) < 3) {
 		return false, nil
 	}
 	v, err := b.u.NewClient()
@@ -401,6 +485,75 @@ func (b *popBuilder) addKilled(shape string, n int, run bool) (bool, error) {
 	t := &txnReg{Start: start, Shape: shape, Muts: map[string]mut{}}
 	txn.SetEnableAsyncCommit(shape == "kill-async")
 	txn.SetEnable1PC(false)
+	livePrimary := ""
+	if multi {
+		// A pessimistic transaction with several primaries, through the public API: LockKeys(kM.., kX) fails on kX with a
+		// write conflict after kM.. were locked under the primary kM (one request per key, the primary's first); the
+		// asynchronous rollback of those locks is lost; the next LockKeys calls elect a new primary; the client then dies
+		// somewhere on the way to its commit.  Which key plays which part is drawn at random, so the stale self-primary
+		// lock lands first / in the middle / last in scan order.
+		perm := b.rng.Perm(len(keys))
+		kX := keys[perm[0]]
+		nStale := 1
+		if len(keys) >= 4 && b.rng.Intn(3) == 0 {
+			nStale = 2
+		}
+		var stale, live []string
+		for i, pi := range perm[1:] {
+			if i < nStale {
+				stale = append(stale, keys[pi])
+			} else {
+				live = append(live, keys[pi])
+			}
+		}
+		// a newer committed version on kX
+		cs := b.d.ts()
+		cm := map[string]mut{kX: {kvrpcpb.Op_Put, fmt.Sprintf("v%d.%s", cs, kX)}}
+		if err := b.d.prewrite(cs, kX, cm, []string{kX}, prewriteOpt{ttl: 3000}); err != nil {
+			return false, fmt.Errorf("kill-pess-multi: conflicting write: %w", err)
+		}
+		if err := b.d.commit(cs, b.d.ts(), []string{kX}); err != nil {
+			return false, fmt.Errorf("kill-pess-multi: conflicting write: %w", err)
+		}
+		b.regs = append(b.regs, &txnReg{Start: cs, Primary: kX, Shape: "base", Muts: cm})
+		txn.SetPessimistic(true)
+		_ = failpoint.Enable("tikvclient/beforeAsyncPessimisticRollback", `return("skip")`)
+		_ = failpoint.Enable("tikvclient/twoPCRequestBatchSizeLimit", "return")
+		lerr := txn.LockKeys(bg, kv.NewLockCtx(start, kv.LockNoWait, time.Now()), bkeys(append(append([]string(nil), stale...), kX))...)
+		_ = failpoint.Disable("tikvclient/twoPCRequestBatchSizeLimit")
+		b.u.Drain()
+		_ = failpoint.Disable("tikvclient/beforeAsyncPessimisticRollback")
+		var wc *tikverr.ErrWriteConflict
+		if !errors.As(lerr, &wc) {
+			return false, fmt.Errorf("kill-pess-multi: the first locking statement was to fail with a write conflict on %q, got %s", kX, es(lerr))
+		}
+		for len(live) > 0 {
+			// one or several statements under the new primary
+			m := 1 + b.rng.Intn(len(live))
+			fu, err := v.Store.CurrentTimestamp(oracle.GlobalTxnScope)
+			if err != nil {
+				return false, err
+			}
+			if err := txn.LockKeys(bg, kv.NewLockCtx(fu, kv.LockNoWait, time.Now()), bkeys(live[:m])...); err != nil {
+				return false, fmt.Errorf("kill-pess-multi: LockKeys under the new primary: %w", err)
+			}
+			if livePrimary == "" {
+				livePrimary = live[0]
+			}
+			t.Pess = append(t.Pess, live[:m]...)
+			live = live[m:]
+		}
+		t.Pess = append(t.Pess, stale...)
+		for _, k := range keys {
+			delete(b.free, k)
+		}
+		b.free[kX] = true
+		keys = append([]string(nil), t.Pess[:len(t.Pess)-len(stale)]...) // the keys the transaction goes on to write
+		if b.rng.Intn(2) == 0 {
+			// the client dies right here, holding nothing but pessimistic locks
+			keys = nil
+		}
+	}
 	if shape == "kill-pess" {
 		txn.SetPessimistic(true)
 		fu, err := v.Store.CurrentTimestamp(oracle.GlobalTxnScope)
@@ -452,8 +605,13 @@ func (b *popBuilder) addKilled(shape string, n int, run bool) (bool, error) {
 		}
 		return uni.Action{}
 	})
-	cerr := txn.Commit(bg)
-	_ = cerr
+	if multi && len(keys) == 0 {
+		point = "while-locking"
+		v.Kill()
+	} else {
+		cerr := txn.Commit(bg)
+		_ = cerr
+	}
 	if !b.u.Drain() {
 		return false, fmt.Errorf("%s: victim did not drain", shape)
 	}
@@ -478,6 +636,9 @@ func (b *popBuilder) addKilled(shape string, n int, run bool) (bool, error) {
 				t.Primary = string(q.PrimaryLock)
 			}
 		}
+	}
+	if multi {
+		t.Primary = livePrimary // not the first statement's
 	}
 	if t.Primary == "" {
 		return true, nil // nothing reached the store
@@ -796,6 +957,79 @@ func scanLockTyped(u *uni.Universe, key string) bool {
 	return true
 }
 
+// multiPrimaryCoverage counts what a population holds of the family "pessimistic transaction with several primaries":
+// transactions whose pessimistic locks at or below the safe point name two or more primaries, and - per region, in
+// key (= scan) order - where a self-primary pessimistic lock sits among the locks of its transaction and what kind of
+// lock of the same transaction comes first in that region.  Shared by the single-call cases and the GC sessions.
+func multiPrimaryCoverage(r *vrep.Report, u *uni.Universe, before *snapshotOfStore, sp uint64, ok bool) {
+	if !ok {
+		return // only executions held to the full oracle count as coverage
+	}
+	type lk struct {
+		key string
+		l   uni.LockRec
+	}
+	byTxnRegion := map[uint64]map[uint64][]lk{}
+	primaries := map[uint64]map[string]bool{}
+	for k, l := range before.locks {
+		if l.StartTS > sp {
+			continue
+		}
+		if isPess(l) {
+			if primaries[l.StartTS] == nil {
+				primaries[l.StartTS] = map[string]bool{}
+			}
+			primaries[l.StartTS][string(l.Primary)] = true
+		}
+		loc, err := u.TruthStore().GetRegionCache().LocateKey(tikv.NewBackofferWithVars(bg, 20000, nil), []byte(k))
+		if err != nil {
+			continue
+		}
+		if byTxnRegion[l.StartTS] == nil {
+			byTxnRegion[l.StartTS] = map[uint64][]lk{}
+		}
+		byTxnRegion[l.StartTS][loc.Region.GetID()] = append(byTxnRegion[l.StartTS][loc.Region.GetID()], lk{k, l})
+	}
+	for start, ps := range primaries {
+		if len(ps) < 2 {
+			continue
+		}
+		r.Count("multi_primary:pessimistic_txns_with_several_primaries", 1)
+		for _, ls := range byTxnRegion[start] {
+			sort.Slice(ls, func(i, j int) bool { return ls[i].key < ls[j].key })
+			if len(ls) > 1 {
+				r.Count("multi_primary:regions_with_several_locks_of_such_a_txn", 1)
+			}
+			for i, x := range ls {
+				if !isPess(x.l) || string(x.l.Primary) != x.key {
+					continue
+				}
+				pos := "alone"
+				switch {
+				case len(ls) == 1:
+				case i == 0:
+					pos = "first"
+				case i == len(ls)-1:
+					pos = "last"
+				default:
+					pos = "middle"
+				}
+				r.Count("multi_primary:self_primary_lock_in_region:"+pos, 1)
+				if i > 0 {
+					prev := "prewrite"
+					if isPess(ls[0].l) {
+						prev = "pessimistic-same-primary"
+						if string(ls[0].l.Primary) != x.key {
+							prev = "pessimistic-other-primary"
+						}
+					}
+					r.Count("multi_primary:self_primary_lock_after_first_lock_of_txn_in_region:"+prev, 1)
+				}
+			}
+		}
+	}
+}
+
 // ---------------------------------------------------------------------------------------------------------
 // one GC execution
 
@@ -885,7 +1119,7 @@ func runGCCase(r *vrep.Report, cs gcCase) {
 		shapes = append(shapes, asyncShapes...)
 		shapes = append(shapes, asyncShapes...)
 	}
-	shapes = append(shapes, "kill-2pc", "kill-pess")
+	shapes = append(shapes, "kill-2pc", "kill-pess", "kill-pess-multi", "pess-multi-primary")
 	if cs.Backend == uni.Uni {
 		shapes = append(shapes, "kill-async", "kill-async")
 	}
@@ -1310,6 +1544,9 @@ func runGCCase(r *vrep.Report, cs gcCase) {
 			o = "committed"
 		}
 		r.Count("txn:"+sh+":"+o, 1)
+		if strings.HasPrefix(sh, "kill-pess-multi@") {
+			r.Count("txn:kill-pess-multi:any", 1)
+		}
 	}
 	for k := range rel {
 		r.Count("region_locks_vs_limit:"+k, 1)
@@ -1321,6 +1558,7 @@ func runGCCase(r *vrep.Report, cs gcCase) {
 	r.Count("merges_leader_moves_during_gc", int(topoDuring.Load()))
 	r.Count("faults_injected", int(faults.Load()))
 	r.Count("killed_clients", b.kills)
+	multiPrimaryCoverage(r, u, before, sp, full)
 	if strict != nil {
 		r.Count("strict_scanlock_answers_cut", int(strict.scanCut.Load()))
 	}
@@ -1576,4 +1814,10 @@ func TestVerifC14GC(t *testing.T) {
 	r.Floor("txn:async-full:committed", 1)
 	r.Floor("region_locks_vs_limit:above", 3)
 	r.Floor("reads_checked:get", 50)
+	r.Floor("multi_primary:pessimistic_txns_with_several_primaries", 10)
+	r.Floor("multi_primary:self_primary_lock_in_region:first", 2)
+	r.Floor("multi_primary:self_primary_lock_in_region:middle", 2)
+	r.Floor("multi_primary:self_primary_lock_in_region:last", 2)
+	r.Floor("multi_primary:self_primary_lock_after_first_lock_of_txn_in_region:pessimistic-other-primary", 3)
+	r.Floor("txn:kill-pess-multi:any", 2)
 }
